@@ -9,16 +9,21 @@
 //! walks every schedule and the report carries all distinct outcomes.
 
 use elvis_core::{
-    protocol::NotifyType,
+    protocol::{DemuxError, NotifyType, StartError},
     protocols::{
-        ipv4::{Ipv4, Ipv4Address},
+        ipv4::{
+            ipv4_parsing::{verif_build_header, Ipv4Header},
+            Ipv4, Ipv4Address,
+        },
         socket_api::socket::{ProtocolFamily, Socket, SocketType},
+        udp::verif::build_udp_header,
         Endpoint, Endpoints, SocketAPI, Tcp, Udp,
     },
     session::SendError,
-    Control, IpTable, Machine, Message, Protocol, Session, Shutdown,
+    Control, FxDashMap, IpTable, Machine, Message, Protocol, Session, Shutdown,
 };
 use std::{
+    any::TypeId,
     collections::BTreeMap,
     future::Future,
     pin::pin,
@@ -226,6 +231,217 @@ fn ephemeral(n: usize) {
     }
 }
 
+// ---------------------------------------------------------------------------------------------
+// UDP listen table (DashMap shard locks are loom's in this build, see vendor/dashmap)
+
+macro_rules! recorder {
+    ($name:ident, $tag:expr) => {
+        struct $name(Arc<Mutex<Vec<(u8, Vec<u8>)>>>);
+        #[async_trait::async_trait]
+        impl Protocol for $name {
+            async fn start(
+                &self,
+                _s: Shutdown,
+                _b: Arc<tokio::sync::Barrier>,
+                _m: Arc<Machine>,
+            ) -> Result<(), StartError> {
+                Ok(())
+            }
+            fn demux(
+                &self,
+                m: Message,
+                _c: Arc<dyn Session>,
+                _ctl: Control,
+                _mach: Arc<Machine>,
+            ) -> Result<(), DemuxError> {
+                self.0.lock().unwrap().push(($tag, m.to_vec()));
+                Ok(())
+            }
+        }
+    };
+}
+recorder!(RecExact, 0);
+recorder!(RecWild, 1);
+recorder!(RecOther, 2);
+
+/// Ports whose (LOCAL, port) key lives in the same DashMap shard as `key`, found with the
+/// public API: while an entry of `key` is held, `try_get` of a key of the same shard reports
+/// "locked". Run once per process in a one-thread model execution.
+fn same_shard_ports(key: Endpoint, want: usize) -> Vec<u16> {
+    let out = Arc::new(Mutex::new(vec![]));
+    let o2 = out.clone();
+    loom::model(move || {
+        let m: FxDashMap<Endpoint, TypeId> = Default::default();
+        let held = m.entry(key);
+        let mut v = vec![];
+        for p in 5000u16..9000 {
+            if m.try_get(&Endpoint::new(LOCAL, p)).is_locked() {
+                v.push(p);
+                if v.len() == want {
+                    break;
+                }
+            }
+        }
+        drop(held);
+        *o2.lock().unwrap() = v;
+    });
+    let v = out.lock().unwrap().clone();
+    v
+}
+
+fn datagram(dst: Endpoint, payload: &[u8]) -> (Message, Control) {
+    let src = Endpoint::new(REMOTE, 777);
+    let mut bytes = build_udp_header(
+        src.address,
+        src.port,
+        dst.address,
+        dst.port,
+        payload.iter().cloned(),
+        payload.len(),
+    )
+    .unwrap();
+    bytes.extend_from_slice(payload);
+    let ip = verif_build_header(src.address, dst.address, 17, bytes.len() as u16, None, None, None, None)
+        .unwrap();
+    let mut c = Control::new();
+    c.insert(Ipv4Header::from_bytes(ip.into_iter()).unwrap());
+    (Message::new(bytes), c)
+}
+
+/// One worker binds `binds` further endpoints (all in the shard of the looked-up key, or of
+/// the wildcard key) while another demultiplexes `dgrams` datagrams for an endpoint that has
+/// been bound all along. Every datagram must reach the exact binding.
+fn udp_bind_vs_demux(binds: usize, dgrams: u8, wildcard: bool, ports: &(Vec<u16>, Vec<u16>)) {
+    let log = Arc::new(Mutex::new(vec![]));
+    let m = Machine::new()
+        .with(Udp::new())
+        .with(Ipv4::new(IpTable::new()))
+        .with(RecExact(log.clone()))
+        .with(RecWild(log.clone()))
+        .with(RecOther(log.clone()))
+        .arc();
+    let udp = m.protocol::<Udp>().unwrap();
+    let exact = Endpoint::new(LOCAL, 4000);
+    udp.listen(TypeId::of::<RecExact>(), exact, m.clone()).unwrap();
+    if wildcard {
+        udp.listen(
+            TypeId::of::<RecWild>(),
+            Endpoint::new(Ipv4Address::CURRENT_NETWORK, 4000),
+            m.clone(),
+        )
+        .unwrap();
+    }
+    // half of the new bindings collide with the exact key's shard, half with the wildcard's
+    let mut new_ports: Vec<u16> = vec![];
+    for i in 0..binds {
+        let src = if i % 2 == 0 { &ports.0 } else { &ports.1 };
+        new_ports.push(src[i / 2]);
+    }
+    let binder = {
+        let (udp, m) = (udp.clone(), m.clone());
+        loom::thread::spawn(move || {
+            for p in new_ports {
+                let _ = udp.listen(TypeId::of::<RecOther>(), Endpoint::new(LOCAL, p), m.clone());
+            }
+        })
+    };
+    let sink: Arc<dyn Session> = Arc::new(Sink);
+    let mut results = vec![];
+    for i in 0..dgrams {
+        let (msg, ctl) = datagram(exact, &[i + 1]);
+        results.push(udp.demux(msg, sink.clone(), ctl, m.clone()).is_ok());
+    }
+    binder.join().unwrap();
+    let got = log.lock().unwrap().clone();
+    outcome(format!("{got:?}/{results:?}"));
+    let want: Vec<(u8, Vec<u8>)> = (0..dgrams).map(|i| (0u8, vec![i + 1])).collect();
+    if got != want {
+        let kind = if got.iter().any(|g| g.0 == 1) {
+            "wildcard-listener-got-a-datagram-of-the-exact-binding"
+        } else if got.iter().any(|g| g.0 == 2) {
+            "delivered-to-another-port"
+        } else {
+            "datagram-for-a-bound-endpoint-dropped"
+        };
+        violation(
+            &format!("exact-listener|Udp::demux|{kind}"),
+            format!("binds={binds} datagrams={dgrams} wildcard={wildcard}: deliveries {got:?}, demux results {results:?}"),
+        );
+    }
+}
+
+/// Polls a future a bounded number of times; None if it stays pending (not an error here).
+fn poll_some<F: Future>(f: F) -> Option<F::Output> {
+    let mut f = pin!(f);
+    let w = noop_waker();
+    let mut cx = Context::from_waker(&w);
+    for _ in 0..8 {
+        if let Poll::Ready(v) = f.as_mut().poll(&mut cx) {
+            return Some(v);
+        }
+        loom::thread::yield_now();
+    }
+    None
+}
+
+/// Two sockets of one machine bind and listen on the same endpoint at the same time; then a
+/// datagram (or a connection) for that endpoint arrives. At most one bind may succeed and the
+/// application whose bind succeeded is the one that sees the arrival.
+fn socket_double_bind(kind: SocketType) {
+    let kind_name = if matches!(kind, SocketType::Stream) { "stream" } else { "datagram" };
+    let (m, api) = machine();
+    let ep = Endpoint::new(Ipv4Address::CURRENT_NETWORK, 80);
+    let mk = || {
+        let mut s = block_on("new_socket", api.new_socket(ProtocolFamily::INET, kind, m.clone()))
+            .unwrap()
+            .unwrap();
+        s.bind(ep).unwrap();
+        s
+    };
+    let (mut s1, mut s2) = (mk(), mk());
+    let t = loom::thread::spawn(move || {
+        let ok = s2.listen(4).is_ok();
+        (s2, ok)
+    });
+    let ok1 = s1.listen(4).is_ok();
+    let (mut s2, ok2) = t.join().unwrap();
+    // an arrival for the endpoint
+    let sink: Arc<dyn Session> = Arc::new(Sink);
+    let _ = api.demux(Message::new(vec![7u8]), sink, control(80, 5000), m.clone());
+    // an application's accept() may panic on a socket whose binding was taken from under it
+    let mut try_accept = |s: &mut Socket| -> (bool, bool) {
+        match std::panic::catch_unwind(std::panic::AssertUnwindSafe(|| poll_some(s.accept()))) {
+            Ok(r) => (r.map(|r| r.is_ok()).unwrap_or(false), false),
+            Err(_) => (false, true),
+        }
+    };
+    let (a1, p1) = try_accept(&mut s1);
+    let (a2, p2) = try_accept(&mut s2);
+    outcome(format!("listen {ok1}/{ok2} accept {a1}/{a2} panics {p1}/{p2}"));
+    if (ok1 && p1) || (ok2 && p2) {
+        violation(
+            "exact-listener|SocketAPI::listen|accept-panics-on-the-socket-whose-bind-succeeded",
+            format!("{kind_name}: listen results {ok1}/{ok2}; accept() on the bound socket panicked ({p1}/{p2}): its binding was overwritten by the refused one"),
+        );
+    }
+    if ok1 && ok2 {
+        violation(
+            "duplicate-bind-refused|SocketAPI::listen|both-concurrent-binds-accepted",
+            format!("{kind_name}: two sockets bound to the same endpoint both listen successfully (accepts: {a1}/{a2})"),
+        );
+    } else if (ok1 && !a1) || (ok2 && !a2) {
+        violation(
+            "exact-listener|SocketAPI::listen|bound-socket-does-not-see-the-arrival",
+            format!("{kind_name}: listen results {ok1}/{ok2}, but the arrival was accepted by {a1}/{a2}"),
+        );
+    } else if !ok1 && !ok2 {
+        violation(
+            "duplicate-bind-refused|SocketAPI::listen|both-concurrent-binds-refused",
+            format!("{kind_name}: neither socket could bind a free endpoint"),
+        );
+    }
+}
+
 fn main() {
     let a: Vec<String> = std::env::args().collect();
     let (scenario, bound) = (a[1].clone(), a[2].parse::<usize>().unwrap());
@@ -233,6 +449,14 @@ fn main() {
     b.preemption_bound = if bound == 0 { None } else { Some(bound) };
     b.max_branches = 100_000;
     let sc = scenario.clone();
+    let ports = if scenario.starts_with("udp:") {
+        (
+            same_shard_ports(Endpoint::new(LOCAL, 4000), 4),
+            same_shard_ports(Endpoint::new(Ipv4Address::CURRENT_NETWORK, 4000), 4),
+        )
+    } else {
+        (vec![], vec![])
+    };
     let r = std::panic::catch_unwind(move || {
         b.check(move || {
             EXECUTIONS.fetch_add(1, Ordering::Relaxed);
@@ -244,6 +468,17 @@ fn main() {
                     p[3] == "announce",
                 ),
                 "ephemeral" => ephemeral(p[1].parse().unwrap()),
+                "udp" => udp_bind_vs_demux(
+                    p[1].parse().unwrap(),
+                    p[2].parse().unwrap(),
+                    p[3] == "wild",
+                    &ports,
+                ),
+                "sockbind" => socket_double_bind(if p[1] == "stream" {
+                    SocketType::Stream
+                } else {
+                    SocketType::Datagram
+                }),
                 _ => panic!("unknown scenario"),
             }
         })
